@@ -158,6 +158,9 @@ V('c19-p-list-copy', 'C19', 'preserve', [(F, "        for plugin in [*_plugins[s
 V('c19-p-reset-clear', 'C19', 'preserve', [(F, "    [\n        remove_plugin(scope, plugin)\n        for plugin in [*_plugins[scope]]\n    ]\n", "    _plugins[scope].clear()\n")])
 
 
+from . import variants_tpl as _tpl      # noqa: E402
+_tpl.register(V)
+
 # ---------------------------------------------------------------------------- seeded changes
 def _load_seeded():
     import json, os
